@@ -105,9 +105,11 @@ theorem streamOriginal_strictK (t name : Text) : StrictK t (streamOriginal t nam
   · obtain ⟨t', ht'⟩ := origTok_final_sub _ _ _ tt m hm
     exact hn (some t') m (by simp only [streamOriginal, if_true]; exact List.mem_cons_of_mem _ ht') ho
 
-theorem smFinalGo_strict (t : Text) (ha : IsAscii t) (hl : t.length ≤ USIZE_MAX) : ∀ (ms : List Mapping) (act : Nat),
-    (∀ m ∈ ms, Inside (splitLines t) m) → StrictK t (smFinalGo (genInfo t) act ms) := by
-  intro ms act hin tt m hm ho
+/-- every chunk (mapped or not) the text-less splitter delivers stands on a character of the text -/
+theorem smFinalGo_strictA (t : Text) (ha : IsAscii t) (hl : t.length ≤ USIZE_MAX) : ∀ (ms : List Mapping) (act : Nat),
+    (∀ m ∈ ms, Inside (splitLines t) m) → ∀ tt m, Ev.chunk tt m ∈ smFinalGo (genInfo t) act ms →
+      ∃ k, k < t.length ∧ adv startPos (t.take k) = ⟨m.gl, m.gc⟩ := by
+  intro ms act hin tt m hm
   -- the delivered mapping lies on a position of the text, strictly before its end
   have hpos : ∀ (ms : List Mapping) (act : Nat), (∀ m ∈ ms, Inside (splitLines t) m) → ∀ tt m, Ev.chunk tt m ∈ smFinalGo (genInfo t) act ms →
       IsPos t ⟨m.gl, m.gc⟩ ∧ posLt ⟨m.gl, m.gc⟩ ⟨(genInfo t).line, (genInfo t).col⟩ := by
@@ -157,6 +159,10 @@ theorem smFinalGo_strict (t : Text) (ha : IsAscii t) (hl : t.length ≤ USIZE_MA
     rw [List.take_length, ← genInfo_adv] at e
     rw [← e] at hlt
     rcases hlt with g' | g' <;> simp only at g' <;> omega
+
+theorem smFinalGo_strict (t : Text) (ha : IsAscii t) (hl : t.length ≤ USIZE_MAX) (ms : List Mapping) (act : Nat)
+    (hin : ∀ m ∈ ms, Inside (splitLines t) m) : StrictK t (smFinalGo (genInfo t) act ms) :=
+  fun tt m hm _ => smFinalGo_strictA t ha hl ms act hin tt m hm
 
 theorem streamSM_strictK (t : Text) (sm : SMap) (ha : IsAscii t) (hl : t.length ≤ USIZE_MAX) (hm : MapInside t sm) :
     StrictK t (streamSM t sm ⟨true, true⟩).evs := by
